@@ -68,7 +68,7 @@ class StubGenerator:
 
     def _one_index_fresh(self, n, exclude=()):
         ctx = _ctx()
-        x = ctx.fresh_int(f'rng_{self.stream}_{self.calls}_idx')
+        x = ctx.integer(f'rng_{self.stream}_{self.calls}_idx')      # an input: part of every model, replayed by the concrete twin
         ctx.assume(x >= 0)
         ctx.assume(x < n)
         for e in exclude:
